@@ -251,9 +251,18 @@ def register_users(R):
     cols = dict(COLS)
     cols[EXTRA] = "real"
 
-    def impl_call(E):
+    def impl_call(E, n=None):
         calls = [kw for nm, kw in E.call_log if nm == "sort_nodes_impl"]
-        return calls[0] if len(calls) == 1 else None
+        if len(calls) == 1:
+            return calls[0]
+        if not calls and n is not None and not (E.cur_key or "").endswith(":sort_nodes_"):
+            # at a CALL SITE of sort_nodes_ (modular rule: its body is not executed) the bijection is a Skolem array; the caller's
+            # own clauses (the copying form sort_nodes, read_swc) speak about the same one
+            w = E.ghost.get("sort-witness")
+            if w is None:
+                w = E.ghost["sort-witness"] = {"__result__": ((SArr.fresh("int", n, name="new_ids"), SArr.fresh("int", n, name="new_pids")), SArr.fresh("int", n, name="sigma"))}
+            return w
+        return None
 
     def permuted(before, after, n, sigma, skip=("id", "pid")):
         """every per-node column (extras included) of `after` is the column of `before` read through sigma"""
@@ -267,7 +276,7 @@ def register_users(R):
 
     def relabelled(E, ids_before, pids_before, ids_after, pids_after):
         """ids are 0..n-1, the root is 0, and the parent relation is the old one read through the bijection sigma"""
-        c = impl_call(E)
+        c = impl_call(E, ids_before.nz())
         if c is None:
             return False
         (_, _), sigma = c["__result__"]
@@ -284,7 +293,7 @@ def register_users(R):
     def df_post(which):
         def f(E, v, o):
             d1, d0 = v["df"], o["df"]
-            c = impl_call(E)
+            c = impl_call(E, zint(d0.n))
             if c is None:
                 return False
             sigma = c["__result__"][1]
@@ -300,6 +309,36 @@ def register_users(R):
           modifies=["df"],
           ensures=[("every-column-follows-the-bijection", df_post("every-column-follows-the-bijection")),
                    ("ids-0-to-n-1-root-0-parents-first-parent-relation-preserved", df_post("relabelled"))])
+
+    # ---------------------------------------------------------------- sort_nodes(df): the copying form
+    def on_result(clause):
+        def f(E, v, o):
+            r = v["result"]
+            if not hasattr(r, "cols"):
+                return False
+            return clause(E, {"df": r}, o)
+
+        return f
+
+    def frame_uids(df):
+        return {df.uid} | {a.uid for a in df.cols.values()}
+
+    def fresh_result(E, v, o):
+        r = v["result"]
+        return hasattr(r, "cols") and r is not v["df"] and not (frame_uids(r) & frame_uids(o["df"]))
+
+    def frozen_frame(S):
+        df = S.dframe(cols)
+        df.frozen = True
+        return df
+
+    R.add(f"{NORM}:sort_nodes", prop="C05",
+          setup=lambda S: dict(df=frozen_frame(S), names=None),
+          requires=pre_clauses(lambda v: (v["df"].cols["id"].arr, v["df"].cols["pid"].arr, zint(v["df"].n))),
+          ensures=[("every-column-follows-the-bijection", on_result(df_post("every-column-follows-the-bijection"))),
+                   ("ids-0-to-n-1-root-0-parents-first-parent-relation-preserved", on_result(df_post("relabelled"))),
+                   ("result-is-a-fresh-frame", fresh_result)],
+          notes="input frame frozen (any store into it is a failed frame obligation); _copy_and_apply is inlined, sort_nodes_ is used through its contract")
 
     # ---------------------------------------------------------------- _sort_tree(tree) / sort_tree(tree)
     from contracts.common import col, nof, sym_tree
